@@ -194,6 +194,14 @@ fn job_result(kind: &str, src: &str, path: &str) -> String {
         }
     }
     let r = std::panic::catch_unwind(|| match kind {
+        "pps" => match preprocess_str(src, path, &defs, &inc, false, true, 0, 0) {
+            Ok((t, d)) => format!("ok {} {}", t.text(), canon_defines(&d, true).join("|")),
+            Err(e) => format!("err {}", canon_err(&e)),
+        },
+        "ppi" => match preprocess_str(src, path, &defs, &inc, true, false, 0, 0) {
+            Ok((t, d)) => format!("ok {} {}", t.text(), canon_defines(&d, true).join("|")),
+            Err(e) => format!("err {}", canon_err(&e)),
+        },
         "pp" => match preprocess_str(src, path, &defs, &inc, false, false, 0, 0) {
             Ok((t, d)) => format!("ok {} {}", t.text(), canon_defines(&d, true).join("|")),
             Err(e) => format!("err {}", canon_err(&e)),
@@ -453,6 +461,29 @@ fn iter_dump<'a>(root: RefNode<'a>, o: &mut String, want: &HashSet<String>) {
         }
         writeln!(o, "{}", s).unwrap();
     }
+    if want.contains("events") {
+        // event views of iterators that hold SEVERAL pending nodes: an iterator advanced by k steps, and one made
+        // from the children of the root
+        let evline = |label: String, it: sv_parser::EventIter<'a>| -> String {
+            let mut s = label;
+            for e in it {
+                match e {
+                    NodeEvent::Enter(x) => { s.push_str(" E"); s.push_str(&tok(&x)); }
+                    NodeEvent::Leave(x) => { s.push_str(" L"); s.push_str(&tok(&x)); }
+                }
+            }
+            s
+        };
+        for k in 1..=4usize {
+            let mut it = root.clone().into_iter();
+            for _ in 0..k {
+                it.next();
+            }
+            writeln!(o, "{}", evline(format!("advev {}", k), it.event())).unwrap();
+        }
+        let two: Vec<RefNode<'a>> = vec![root.clone(), root.clone()];
+        writeln!(o, "{}", evline("multiev".to_string(), sv_parser::Iter::new(two.into()).event())).unwrap();
+    }
     if want.contains("sub") {
         let all: Vec<RefNode<'a>> = root.clone().into_iter().collect();
         for (i, n) in all.iter().enumerate() {
@@ -540,6 +571,21 @@ fn print_tree(ctx: &mut Ctx, r: Result<(SyntaxTree, Defines), Error>, o: &mut St
                     };
                     writeln!(o, "n {} {} str={} trim={}", i, n, f(a), f(b)).unwrap();
                     i += 1;
+                }
+            }
+            if ctx.want.contains("nodeinfo") || ctx.want.contains("display") {
+                // the derived Locate::try_from of the root: it walks every token of the tree and asserts that each
+                // one starts where the previous one ends (so it fires whenever that of any inner node would)
+                use std::convert::TryFrom;
+                let r = match t.into_iter().next() {
+                    Some(RefNode::SourceText(x)) => Some(Locate::try_from(x)),
+                    Some(RefNode::LibraryText(x)) => Some(Locate::try_from(x)),
+                    _ => None,
+                };
+                match r {
+                    Some(Ok(l)) => writeln!(o, "rootlocate {}:{}:{}", l.offset, l.len, l.line).unwrap(),
+                    Some(Err(())) => writeln!(o, "rootlocate -").unwrap(),
+                    None => (),
                 }
             }
             if ctx.want.contains("display") {
